@@ -123,6 +123,11 @@ def get_harness(build, variant="plain", extra_flags=""):
             gen_api.generate(build); srcs = srcs + [os.path.join(build, "api_gen.c")]
         except Exception as e:
             raise BuildError("gen_api failed on the current mpir.h: %s" % e)
+        seen = {}
+        for sfile in srcs:
+            for m in re.finditer(r'(?:BOTH\s*\(|\{)\s*"([@A-Za-z0-9_?]+)"\s*,', open(sfile).read()):
+                if m.group(1) != "@reset" and seen.setdefault(m.group(1), sfile) != sfile:
+                    raise BuildError("op name %s is registered by both %s and %s" % (m.group(1), os.path.basename(seen[m.group(1)]), os.path.basename(sfile)))
         reg_c = os.path.join(build, "h_registry.c")
         with open(reg_c, "w") as f:
             f.write('#include "harness.h"\n')
